@@ -9,10 +9,10 @@ cd "$WT" || exit 2
 git checkout -q -- . ; rm -f "$PKG/zz_demo_test.go"
 git apply "$M/patch.diff" || { echo "PATCH DOES NOT APPLY"; exit 1; }
 go build ./... && go build -tags verif ./... || { echo "BUILD FAILS"; git checkout -q -- .; exit 1; }
-if go test -count=1 ./... > /tmp/confirm_tests.log 2>&1; then echo "suite with change: PASS"; else echo "suite with change: FAIL"; tail -20 /tmp/confirm_tests.log; fi
+if go test -count=1 -timeout 90s ./... > /tmp/confirm_tests.log 2>&1 || go test -count=1 -timeout 90s ./... > /tmp/confirm_tests.log 2>&1; then echo "suite with change: PASS"; else echo "suite with change: FAIL"; tail -20 /tmp/confirm_tests.log; fi
 cp "$M/demo_test.go" "$PKG/zz_demo_test.go"
-if go test -count=1 -run "$RUN" "./$PKG" > /tmp/confirm_demo1.log 2>&1; then echo "demo with change: PASS (unexpected)"; else echo "demo with change: FAIL (expected)"; fi
+if go test -count=1 -timeout 120s -run "$RUN" "./$PKG" > /tmp/confirm_demo1.log 2>&1; then echo "demo with change: PASS (unexpected)"; else echo "demo with change: FAIL (expected)"; fi
 git checkout -q -- .
-if go test -count=1 -run "$RUN" "./$PKG" > /tmp/confirm_demo2.log 2>&1; then echo "demo without change: PASS (expected)"; else echo "demo without change: FAIL (unexpected)"; tail -20 /tmp/confirm_demo2.log; fi
+if go test -count=1 -timeout 120s -run "$RUN" "./$PKG" > /tmp/confirm_demo2.log 2>&1; then echo "demo without change: PASS (expected)"; else echo "demo without change: FAIL (unexpected)"; tail -20 /tmp/confirm_demo2.log; fi
 rm -f "$PKG/zz_demo_test.go"
 git status --short | grep -v _mutants
